@@ -26,6 +26,8 @@ import PgProofs.GenoIncr
 import PgProofs.GenoCount
 import PgProofs.GenoInf
 import PgProofs.GenoRandomPrev
+import PgProofs.GenoAttach
+import PgProofs.GenoHooks
 import PgGen.C11Tables
 namespace Pg.Geno
 
@@ -115,6 +117,39 @@ position, `next_value_for_choice` and `min_remaining_choices` (with the monotone
 lemma) included, in every distinct × sorted mode and under any nesting of conditional spaces. -/
 theorem C11_next : C11_next_Full :=
   fun g hf hw => (specOk_all g hf hw).next
+
+/-- `attach_spec`: `first_dna` / `next_dna` / `iter_dna` compute the raw tree (`Spec.first`,
+`Spec.next` — what `attach_spec=False` returns, so `C11_first`, `C11_next`, `C11_iter` ARE the
+statements for `attach_spec=False`) and with `attach_spec=True` bind it (`use_spec`); on a finite
+well-formed spec that binding never fails, for the first DNA and for every successor of a member. -/
+theorem C11_attach_spec (g : Spec) (hf : g.finite = true) (hw : g.wf = true) :
+    (g.all ≠ [] → g.bind g.first = true) ∧
+    ∀ d ∈ g.all, ∀ d', g.next d = some (some d') → g.bind d' = true :=
+  ⟨first_binds g hf hw, fun d hd d' h => next_binds g hf hw d hd d' h⟩
+
+/-! ### Custom decision points: the user hooks as parameters -/
+
+/-- CONSERVATIVITY: on a spec without custom decision points `first_dna`, `next_dna` and `iter_dna`
+do not depend on the hooks at all (so every theorem of this file holds verbatim for the hooked
+functions on such specs). -/
+theorem C11_hooks_conservative (hk : Hooks) (g : Spec) (hc : g.noCustom = true) :
+    g.firstH hk = g.first ∧ (∀ d, g.nextH hk d = g.next d) ∧ ∀ fuel, g.iterH hk fuel = g.iter fuel :=
+  ⟨Spec.firstH_eq hk g hc, Spec.nextH_eq hk g hc, Spec.iterH_eq hk g hc⟩
+
+/-- THE CONTRACT IS SATISFIABLE: the hooks the harness installs (`next_dna_fn` walking a list of
+pairwise different strings) meet `HookContract`. -/
+theorem C11_list_hooks_contract (tbl : Info → Option (List String)) (info : Info) (L : List String)
+    (ht : tbl info = some L) (hne : L ≠ []) (hnd : L.Nodup) : HookContract (listHooks tbl) info L :=
+  listHooks_contract tbl info L ht hne hnd
+
+/-- EXACT ENUMERATION THROUGH A HOOK: a custom decision point whose hook meets the contract for the
+list `L` iterates exactly `L` — every element once, in order — and then ends. (Custom points
+inside spaces and conditional candidates go through the same `Space._next_dna` / odometer code as
+any other element; those compositions are compared with the code on every run.) -/
+theorem C11_custom_point_iter (hk : Hooks) (info : Info) (L : List String) (hc : HookContract hk info L)
+    (fuel : Nat) (hf : L.length < fuel) :
+    (Spec.point (.custom info)).iterH hk fuel = some (L.map fun t => .mk (.str t) [], true) :=
+  iterH_custom hk info L hc fuel hf
 
 /-- The enumeration has no repetition. -/
 theorem C11_all_nodup (g : Spec) (hf : g.finite = true) (hw : g.wf = true) : g.all.Nodup :=
